@@ -772,7 +772,13 @@ handleTimeouts(CS104_Connection self)
 
     if (currentTime > self->nextT3Timeout)
     {
-        if (self->outstandingTestFCConMessages > 2)
+        if (self->uMessageTimeout != 0)
+        {
+            /* a TESTFR_ACT is still unanswered: T1 of that message decides (checked above), don't send another
+             * one -- it would move the T1 deadline when t3 < t1 */
+            resetT3Timeout(self);
+        }
+        else if (self->outstandingTestFCConMessages > 2)
         {
             DEBUG_PRINT("Timeout for TESTFR_CON message\n");
 
